@@ -52,8 +52,8 @@ EscAtom(a) == CASE a = "M1" -> "E1" [] a = "M2" -> "E2" [] a = "M3" -> "E3" [] a
                 [] a = "<" -> "&lt;" [] a = ">" -> "&gt;" [] a = "&" -> "&amp;"
                 [] OTHER -> a
 EscStr(s) == [i \in 1..Len(s) |-> EscAtom(s[i])]
-UpAtom(a) == CASE a = "a" -> "A" [] a = "b" -> "B" [] a = "c" -> "C" [] a = "d" -> "D" [] a = "k" -> "K" [] a = "q" -> "Q" [] a = "w" -> "W" [] a = "x" -> "X" [] a = "y" -> "Y" [] a = "z" -> "Z" [] OTHER -> a
-LoAtom(a) == CASE a = "A" -> "a" [] a = "B" -> "b" [] a = "C" -> "c" [] a = "D" -> "d" [] a = "K" -> "k" [] a = "Q" -> "q" [] a = "W" -> "w" [] a = "X" -> "x" [] a = "Y" -> "y" [] a = "Z" -> "z" [] OTHER -> a
+UpAtom(a) == CASE a = "a" -> "A" [] a = "b" -> "B" [] a = "c" -> "C" [] a = "d" -> "D" [] a = "e" -> "E" [] a = "f" -> "F" [] a = "g" -> "G" [] a = "h" -> "H" [] a = "i" -> "I" [] a = "j" -> "J" [] a = "k" -> "K" [] a = "l" -> "L" [] a = "m" -> "M" [] a = "n" -> "N" [] a = "o" -> "O" [] a = "p" -> "P" [] a = "q" -> "Q" [] a = "r" -> "R" [] a = "s" -> "S" [] a = "t" -> "T" [] a = "u" -> "U" [] a = "v" -> "V" [] a = "w" -> "W" [] a = "x" -> "X" [] a = "y" -> "Y" [] a = "z" -> "Z" [] a = "EACUTE" -> "EACUTE_UP" [] OTHER -> a
+LoAtom(a) == CASE a = "A" -> "a" [] a = "B" -> "b" [] a = "C" -> "c" [] a = "D" -> "d" [] a = "E" -> "e" [] a = "F" -> "f" [] a = "G" -> "g" [] a = "H" -> "h" [] a = "I" -> "i" [] a = "J" -> "j" [] a = "K" -> "k" [] a = "L" -> "l" [] a = "M" -> "m" [] a = "N" -> "n" [] a = "O" -> "o" [] a = "P" -> "p" [] a = "Q" -> "q" [] a = "R" -> "r" [] a = "S" -> "s" [] a = "T" -> "t" [] a = "U" -> "u" [] a = "V" -> "v" [] a = "W" -> "w" [] a = "X" -> "x" [] a = "Y" -> "y" [] a = "Z" -> "z" [] a = "EACUTE_UP" -> "EACUTE" [] OTHER -> a
 
 \* order of atoms (for `sorted` over strings and string-keyed maps): code point order of the plain letters used
 AtomRank(a) == CASE a = "1" -> 1 [] a = "2" -> 2 [] a = "3" -> 3 [] a = "A" -> 10 [] a = "B" -> 11 [] a = "C" -> 12
